@@ -81,7 +81,7 @@ var HostilePool = []string{
 	"\n", "\r\n", "\t", " ", "NaN", "Inf", "-Inf", "Infinity", "0x1p-2", "1_000", "1e400", "TRUE", "NULL", "null",
 	"AND", "or", "NOT", "to", "é", "ü", "日本", "é", "‏", "\U0001F600", "�", ":", "=", ">", "<", "+", "-",
 	"~", "^", "*", "/", "//", "'; DROP TABLE t; --", "' OR '1'='1", `" OR ""="`, "E'\\''", "$$", "U&'\\0041'", "\\'", "x'y",
-	"1", "0", "-1", "5.0", "1e5", ".5", "min", `"min":`, `"max":`, `"left":`, "{", "}}", "%!s(int=1)", "%!", "%d",
+	"1", "0", "-1", "5.0", "1e5", ".5", "٣", "-٣", "-३", "-３", "010", "0x1F", "min", `"min":`, `"max":`, `"left":`, "{", "}}", "%!s(int=1)", "%!", "%d",
 }
 
 // GenHostileString draws a valid-UTF-8, NUL-free string built from pool fragments
@@ -138,9 +138,15 @@ func GenQuotedVal(hostile bool) *rapid.Generator[*Val] {
 
 var intPool = []int{0, 1, -1, 2, 5, 7, 10, 22, -3, -20, 200, 2147483647, -2147483648, 2147483648, 9007199254740993, math.MaxInt64, math.MinInt64}
 
+// intLits are integers written in unusual but decimal ways.
+var intLits = []string{"010", "007", "-017", "00", "0100", "-0", "02134", "08", "0019"}
+
 // GenIntVal draws an integer.
 func GenIntVal() *rapid.Generator[*Val] {
 	return rapid.Custom(func(t *rapid.T) *Val {
+		if rapid.IntRange(0, 7).Draw(t, "lit") == 0 {
+			return IntSrc(rapid.SampledFrom(intLits).Draw(t, "il"))
+		}
 		if rapid.Bool().Draw(t, "pooled") {
 			return Int(rapid.SampledFrom(intPool).Draw(t, "i"))
 		}
@@ -248,7 +254,7 @@ func GenVal(k ValKinds) *rapid.Generator[*Val] {
 
 // WeirdNumerics are bare words that Go's number syntax accepts (or nearly accepts)
 // in surprising ways; they are printed as raw terms (their meaning is left to M1).
-var WeirdNumerics = []string{"NaN", "nan", "Inf", "inf", "Infinity", "infinity", "0x1p-2", "0X1P+2", "1e400", "1_000", "0x10", "5.", "1e5", "1E-5", "007", "-0", "-0.0", "1e-400", "9223372036854775807", "9223372036854775808", "-9223372036854775808", "18446744073709551616", "0b101", "0o17", "٣", "1.7976931348623157e308"}
+var WeirdNumerics = []string{"NaN", "nan", "Inf", "inf", "Infinity", "infinity", "0x1p-2", "0X1P+2", "1e400", "1_000", "0x10", "5.", "1e5", "1E-5", "007", "-0", "-0.0", "1e-400", "9223372036854775807", "9223372036854775808", "-9223372036854775808", "18446744073709551616", "0b101", "0o17", "0x1F", "010", "-017", "٣", "-٣", "-３", "1.7976931348623157e308"}
 
 // RawWord makes a value that is printed verbatim; only its Src is meaningful.
 func RawWord(src string) *Val { return &Val{K: VWord, Src: src, S: src} }
